@@ -97,4 +97,84 @@ theorem idAt_eq (M : Nat) (hM : 3 ≤ M) (n : Nat) : idAt M n = (n + 1) % (M - 1
   simp only [idAt, allocId] at h ⊢
   split at h <;> rename_i hc <;> simp [hc] at h ⊢ <;> exact h
 
+/-! ### the sessions map -/
+
+/-- every entry of the map is stored under the id its connection holds (`SetId` before the store) -/
+def Own.Agree (o : Own) (idOf : Nat → Nat) : Prop := ∀ p ∈ o.live, idOf p.2 = p.1
+
+theorem Own.lookup_some {o : Own} {id k : Nat} (h : o.lookup id = some k) : (id, k) ∈ o.live := by
+  simp only [Own.lookup, Option.map_eq_some_iff] at h
+  obtain ⟨p, hp, hk⟩ := h
+  have h1 := List.mem_of_find?_eq_some hp
+  have h2 := List.find?_some hp
+  simp only [beq_iff_eq] at h2
+  obtain ⟨a, b⟩ := p
+  simp only at h2 hk; subst h2; subst hk; exact h1
+
+theorem Own.lookup_none {o : Own} {id : Nat} (h : o.lookup id = none) : ∀ k, (id, k) ∉ o.live := by
+  intro k hm
+  simp only [Own.lookup, Option.map_eq_none_iff, List.find?_eq_none] at h
+  have := h (id, k) hm
+  simp at this
+
+/-- a lookup under a connection's id finds that connection's own session or nothing — provided ids are not shared -/
+theorem Own.lookup_own (o : Own) (idOf : Nat → Nat) (ha : o.Agree idOf) (hinj : ∀ k k', idOf k = idOf k' → k = k') (k : Nat) :
+    o.lookup (idOf k) = none ∨ o.lookup (idOf k) = some k := by
+  cases h : o.lookup (idOf k) with
+  | none => left; rfl
+  | some k' =>
+    right
+    have := ha _ (Own.lookup_some h)
+    simp only at this
+    rw [hinj k' k this]
+
+theorem Own.agree_add (M : Nat) (o : Own) (idOf : Nat → Nat) (k : Nat) (ha : o.Agree idOf) (hk : ∀ p ∈ o.live, p.2 ≠ k) :
+    (o.add M k).1.Agree (fun j => if j = k then (o.add M k).2 else idOf j) := by
+  intro p hp
+  simp only [Own.add, List.mem_cons, List.mem_filter] at hp
+  rcases hp with rfl | ⟨hp, _⟩
+  · simp [Own.add]
+  · have := hk p hp
+    simp only [this, if_false]
+    exact ha p hp
+
+theorem Own.agree_remove (o : Own) (idOf : Nat → Nat) (id : Nat) (ha : o.Agree idOf) : (o.remove id).1.Agree idOf := by
+  intro p hp
+  simp only [Own.remove] at hp
+  cases h : o.lookup id with
+  | none => rw [h] at hp; exact ha p hp
+  | some k => rw [h] at hp; simp only [List.mem_filter] at hp; exact ha p hp.1
+
+/-- a remove under a connection's own id deletes exactly that entry and hands the handler that connection's session -/
+theorem Own.remove_own (o : Own) (idOf : Nat → Nat) (ha : o.Agree idOf) (hinj : ∀ k k', idOf k = idOf k' → k = k') (k : Nat)
+    (hl : (idOf k, k) ∈ o.live) :
+    (o.remove (idOf k)).2 = some k ∧ ∀ p, p ∈ (o.remove (idOf k)).1.live ↔ (p ∈ o.live ∧ p.2 ≠ k) := by
+  have hlk : o.lookup (idOf k) = some k := by
+    rcases Own.lookup_own o idOf ha hinj k with h | h
+    · exact absurd hl (Own.lookup_none h k)
+    · exact h
+  simp only [Own.remove, hlk, true_and]
+  intro p
+  simp only [List.mem_filter, bne_iff_ne, ne_eq]
+  constructor
+  · rintro ⟨hp, hne⟩
+    refine ⟨hp, ?_⟩
+    intro hk; apply hne; rw [← hk]; exact (ha p hp).symm
+  · rintro ⟨hp, hne⟩
+    refine ⟨hp, ?_⟩
+    intro hid; apply hne
+    exact hinj _ _ ((ha p hp).trans hid)
+
+/-- after `AddSession` a lookup under the new id finds the new connection -/
+theorem Own.lookup_add (M : Nat) (o : Own) (k : Nat) : (o.add M k).1.lookup (o.add M k).2 = some k := by
+  simp [Own.add, Own.lookup]
+
+/-- after the remove of connection `k` a lookup under its id finds nothing -/
+theorem Own.lookup_after_remove (o : Own) (idOf : Nat → Nat) (ha : o.Agree idOf) (hinj : ∀ k k', idOf k = idOf k' → k = k') (k : Nat)
+    (hl : (idOf k, k) ∈ o.live) : (o.remove (idOf k)).1.lookup (idOf k) = none := by
+  obtain ⟨_, hmem⟩ := Own.remove_own o idOf ha hinj k hl
+  rcases Own.lookup_own (o.remove (idOf k)).1 idOf (Own.agree_remove o idOf _ ha) hinj k with h | h
+  · exact h
+  · exact absurd rfl ((hmem _).mp (Own.lookup_some h)).2
+
 end Cell2v.Session
